@@ -76,6 +76,8 @@ type snippet struct {
 	topOnly bool
 	// parse: a parse error (may be placed anywhere a statement can stand)
 	parse bool
+	// ns: pragma / name-resolution class (static errors and near-errors)
+	ns bool
 }
 
 var snippets = []snippet{
@@ -112,6 +114,60 @@ var snippets = []snippet{
 	{class: "lambda-two-rest", text: "nop {|@a @b| } # %d"},
 	{class: "use-compound", text: "use a$g1 # %d"},
 	{class: "and-ok", text: "nop # %d"}, // a valid snippet: the program stays valid
+	// --- pragmas and name resolution: static errors and near-errors. Whether
+	// each one is rejected is decided by the interpreter; the check demands
+	// that Check/CheckTree/-compileonly agree with Eval and that rejected code
+	// did not run.
+	{ns: true, class: "ns-unimported-mod-cmd-strict", text: "{ pragma unknown-command = disallow; str:join , [a] } # %d"},
+	{ns: true, class: "ns-unimported-mod-cmd-strict", text: "{ pragma unknown-command = disallow; re:match a a } # %d"},
+	{ns: true, class: "ns-unimported-mod-cmd-strict", text: "{ pragma unknown-command = disallow; math:abs 1 } # %d"},
+	{ns: true, class: "ns-unimported-mod-cmd-strict", text: "{ pragma unknown-command = disallow; path:base a; file:pipe; os:stat a; flag:call; doc:show a; platform:hostname; runtime:foo } # %d"},
+	{ns: true, class: "ns-unimported-mod-cmd-strict-nested", text: "{ pragma unknown-command = disallow; nop { nop (str:to-upper a) } } # %d"},
+	{ns: true, class: "ns-unimported-mod-cmd-strict-toplevel", text: "pragma unknown-command = disallow; str:join , [a] # %d"},
+	{ns: true, class: "ns-unimported-bundled-mod-cmd-strict", text: "{ pragma unknown-command = disallow; epm:list } # %d"},
+	{ns: true, class: "ns-unimported-bundled-mod-cmd-strict", text: "{ pragma unknown-command = disallow; readline-binding:foo } # %d"},
+	{ns: true, class: "ns-nonexistent-mod-cmd-strict", text: "{ pragma unknown-command = disallow; no-such-mod:cmd } # %d"},
+	{ns: true, class: "ns-unimported-mod-cmd-lenient", text: "{ str:no-such-external-%d a }"},
+	{ns: true, class: "ns-nonexistent-mod-cmd-lenient", text: "{ no-such-mod:cmd-%d }"},
+	{ns: true, class: "ns-imported-mod-cmd-strict", text: "{ use str; pragma unknown-command = disallow; put (str:to-upper a) } # %d"},
+	{ns: true, class: "ns-imported-mod-cmd-strict", text: "{ pragma unknown-command = disallow; use math; put (math:abs -1) } # %d"},
+	{ns: true, class: "ns-imported-bundled-mod", text: "{ use epm; pragma unknown-command = disallow; nop $epm:install~ } # %d"},
+	{ns: true, class: "ns-imported-enclosing-scope", text: "{ use str; { pragma unknown-command = disallow; { put (str:to-upper a) } } } # %d"},
+	{ns: true, class: "ns-imported-toplevel-used-inside", text: "use str; { pragma unknown-command = disallow; put (str:to-upper a) } # %d"},
+	{ns: true, class: "ns-imported-sibling-scope", text: "{ use str }; { pragma unknown-command = disallow; str:to-upper a } # %d"},
+	{ns: true, class: "ns-imported-sibling-scope-lenient", text: "{ use str }; { str:to-upper-%d a }"},
+	{ns: true, class: "ns-use-after-reference", text: "{ pragma unknown-command = disallow; str:to-upper a; use str } # %d"},
+	{ns: true, class: "ns-use-after-reference-var", text: "{ put $str:to-upper~; use str } # %d"},
+	{ns: true, class: "ns-use-nonexistent-mod", text: "{ use no-such-mod-%d }"},
+	{ns: true, class: "ns-use-alias", text: "{ use str s; pragma unknown-command = disallow; put (s:to-upper a); str:to-upper a } # %d"},
+	{ns: true, class: "ns-unimported-mod-var", text: "put $math:pi # %d"},
+	{ns: true, class: "ns-unimported-mod-var", text: "nop { put $str:join~ } # %d"},
+	{ns: true, class: "ns-nonexistent-mod-var", text: "put $no-such-mod:var # %d"},
+	{ns: true, class: "ns-imported-mod-var", text: "{ use math; put $math:pi } # %d"},
+	{ns: true, class: "ns-imported-mod-var-sibling", text: "{ use math }; put $math:pi # %d"},
+	{ns: true, class: "ns-imported-mod-nonexistent-var", text: "{ use math; put $math:no-such-var } # %d"},
+	{ns: true, class: "ns-builtin-mod", text: "{ use builtin; pragma unknown-command = disallow; builtin:put a } # %d"},
+	{ns: true, class: "ns-builtin-mod-unimported", text: "{ pragma unknown-command = disallow; builtin:put a } # %d"},
+	{ns: true, class: "ns-e-qualified-strict", text: "{ pragma unknown-command = disallow; e:no-such-external-%d }"},
+	{ns: true, class: "ns-e-qualified-var", text: "{ pragma unknown-command = disallow; nop $e:no-such-external-%d~ }"},
+	{ns: true, class: "ns-E-qualified-var", text: "{ pragma unknown-command = disallow; put $E:VERIF_NO_SUCH_ENV_%d }"},
+	{ns: true, class: "ns-E-qualified-set", text: "{ set E:VERIF_C16_NS_%d = x }"},
+	{ns: true, class: "ns-slash-command-strict", text: "{ pragma unknown-command = disallow; ./no-such-file-%d }"},
+	{ns: true, class: "ns-pragma-after-command", text: "{ no-such-command-%d; pragma unknown-command = disallow }"},
+	{ns: true, class: "ns-pragma-in-sibling-lambda", text: "{ pragma unknown-command = disallow }; no-such-command-%d"},
+	{ns: true, class: "ns-pragma-inherited-by-inner-lambda", text: "{ pragma unknown-command = disallow; nop { nop { no-such-command-%d } } }"},
+	{ns: true, class: "ns-pragma-reset-in-inner-lambda", text: "{ pragma unknown-command = disallow; { pragma unknown-command = external; no-such-command-%d } }"},
+	{ns: true, class: "ns-pragma-reset-then-outer", text: "{ pragma unknown-command = disallow; { pragma unknown-command = external }; no-such-command-%d }"},
+	{ns: true, class: "ns-pragma-toplevel-then-lambda", text: "pragma unknown-command = disallow; nop { no-such-command-%d }"},
+	{ns: true, class: "ns-pragma-in-fn-body", text: "fn strict-%d { pragma unknown-command = disallow; no-such-command }"},
+	{ns: true, class: "ns-shadowed-builtin-strict", text: "{ fn put {|@a| nop $@a }; pragma unknown-command = disallow; put a } # %d"},
+	{ns: true, class: "ns-user-fn-strict", text: "{ pragma unknown-command = disallow; fn local-fn { nop }; local-fn } # %d"},
+	{ns: true, class: "ns-user-fn-deleted-strict", text: "{ pragma unknown-command = disallow; var f~ = { nop }; f; del f~; f } # %d"},
+	{ns: true, class: "ns-user-fn-used-before-definition-strict", text: "{ pragma unknown-command = disallow; later-fn; fn later-fn { nop } } # %d"},
+	{ns: true, class: "ns-fn-variable-strict", text: "{ pragma unknown-command = disallow; var g~ = $nop~; g a } # %d"},
+	{ns: true, class: "ns-special-command-as-variable", text: "{ pragma unknown-command = disallow; nop $if~ } # %d"},
+	{ns: true, class: "ns-special-command-shadowed", text: "{ var and~ = { put shadow }; pragma unknown-command = disallow; and } # %d"},
+	{ns: true, class: "ns-global-fn-strict", text: "{ pragma unknown-command = disallow; gf } # %d"},
 	{class: "parse-unclosed-paren", text: "put (put a%d", pinned: true, parse: true},
 	{class: "parse-unclosed-bracket", text: "put [a%d b", pinned: true, parse: true},
 	{class: "parse-unclosed-brace", text: "nop { put a%d", pinned: true, parse: true},
@@ -473,8 +529,17 @@ func decide(c *mon.Case, ev *eval.Evaler, priv *eval.Ns, code string, s *snippet
 	beforeCheck := snapshotNs(ev.Global())
 	var werr bytes.Buffer
 	var parseErr, compileErr error
-	if priv == nil {
-		parseErr, _, compileErr = ev.Check(parse.Source{Name: "[verif]", Code: code}, &werr)
+	// (the private namespace declares the same names as the default one, so
+	// the static check of the interpreter applies to both evaluation modes)
+	parseErr, _, compileErr = ev.Check(parse.Source{Name: "[verif]", Code: code}, &werr)
+	// CheckTree on a separately parsed tree must say the same as Check
+	if tree, perr := parse.Parse(parse.Source{Name: "[verif]", Code: code}, parse.Config{}); perr == nil {
+		_, treeErr := ev.CheckTree(tree, nil)
+		c.Count("checktree_compared", 1)
+		if (treeErr != nil) != (compileErr != nil) {
+			c.Violation("checktree-disagrees", fmt.Sprintf("Evaler.CheckTree reports %v, Evaler.Check compilation error %v", treeErr, compileErr), map[string]any{"code": code})
+			return
+		}
 	}
 	if d := diffSnap(beforeCheck, snapshotNs(ev.Global())); d != "" {
 		c.Violation("check-changed-global", "Evaler.Check changed the global namespace: "+d, map[string]any{"code": code})
@@ -490,6 +555,19 @@ func decide(c *mon.Case, ev *eval.Evaler, priv *eval.Ns, code string, s *snippet
 	pe, ce := isStatic(o.err)
 	evalSaysError := pe || ce
 	c.Count("programs", 1)
+	if s != nil && s.ns {
+		c.Count("ns_programs", 1)
+		if evalSaysError {
+			c.Count("ns_rejected", 1)
+			c.Count("nsr_"+class, 1)
+		} else {
+			c.Count("ns_accepted", 1)
+			c.Count("nsa_"+class, 1)
+		}
+		if priv != nil {
+			c.Count("ns_with_private_namespace", 1)
+		}
+	}
 	if evalSaysError {
 		c.Count("static_error_reported", 1)
 		c.Count("class_"+class, 1)
@@ -524,8 +602,11 @@ func decide(c *mon.Case, ev *eval.Evaler, priv *eval.Ns, code string, s *snippet
 			}
 		}
 	}
-	if priv == nil {
+	{
 		c.Count("check_vs_eval_compared", 1)
+		if priv != nil {
+			c.Count("check_vs_eval_compared_private_namespace", 1)
+		}
 		if checkSaysError != evalSaysError {
 			sig := "check-disagrees:check-only"
 			if evalSaysError {
@@ -688,7 +769,7 @@ func runCompileOnly(c *mon.Case) {
 func Spec() *mon.Spec {
 	return &mon.Spec{
 		ID: "C16", Level: "exploration",
-		Rule: "case (phase injected) = 1..6 side-effecting valid statements (value output, stdout/stderr bytes, file creation, set-env, harness event builtin, assignment to and deletion of pre-declared globals, element assignment, new variables and functions; also inside if/for/lambda/capture), then one snippet from a list of static errors (undefined variables, unknown command under `pragma unknown-command = disallow`, malformed special forms, bad pragmas, tmp at top level, del of non-local, parse errors), as a statement or inside a function/lambda/if-false body/capture/pipeline stage that would never run, then 0..3 more effects; 1 case in 6 has no injection (valid), 1 in 4 is evaluated with a private global namespace. Observed: Evaler.Check (must change nothing), then Evaler.Eval on the same context: error kind, values and bytes on both output ports, harness events, files, environment, global namespace names and values before/after. Oracle: Eval returns a parse/compilation error => no output, no event, no file, no env change, identical global namespace(s); Check reports an error <=> Eval reports a parse/compilation error (and the same kind); snippets the reference documents as rejected before execution must be rejected; valid programs must run. Phase generated does the same with programs of the C15 generator (valid ones, and with a static error appended). Phase compileonly runs `elvish -compileonly [-json]` on self-contained files and compares exit status / JSON with the in-process Check and demands that nothing ran. Non-trivial = program for which a static error was reported and all effects were verified absent; distinct by error class, placement, evaluation mode and size.",
+		Rule: "case (phase injected) = 1..6 side-effecting valid statements (value output, stdout/stderr bytes, file creation, set-env, harness event builtin, assignment to and deletion of pre-declared globals, element assignment, new variables and functions; also inside if/for/lambda/capture), then one snippet from a list of static errors (undefined variables, unknown command under `pragma unknown-command = disallow`, malformed special forms, bad pragmas, tmp at top level, del of non-local, parse errors), as a statement or inside a function/lambda/if-false body/capture/pipeline stage that would never run, then 0..3 more effects; 1 case in 6 has no injection (valid), 1 in 4 is evaluated with a private global namespace. Observed: Evaler.Check (must change nothing), then Evaler.Eval on the same context: error kind, values and bytes on both output ports, harness events, files, environment, global namespace names and values before/after. Oracle: Eval returns a parse/compilation error => no output, no event, no file, no env change, identical global namespace(s); Check reports an error <=> Eval reports a parse/compilation error (and the same kind); snippets the reference documents as rejected before execution must be rejected; valid programs must run. Phase generated does the same with programs of the C15 generator (valid ones, and with a static error appended). Phase compileonly runs `elvish -compileonly [-json]` on self-contained files and compares exit status / JSON with the in-process Check and demands that nothing ran. About 40% of the snippets are pragma / name-resolution errors and near-errors (ns-*): `pragma unknown-command = disallow` before, after, inside, in sibling and enclosing lambdas and reset in inner ones; commands and variables qualified with imported, pre-defined but un-imported (str, re, math, path, file, os, flag, doc, platform, runtime), bundled (epm, readline-binding), aliased and non-existent modules; a module imported in an enclosing vs. a sibling scope; `use` after the reference; e:/E:-qualified names; shadowed, deleted, not-yet-defined and special commands; whether Eval rejects each is left to the interpreter, but Check, CheckTree (also under a private EvalCfg.Global declaring the same names) and -compileonly must agree with it, and rejected code must not have run (counters nsr_*/nsa_* = rejected/accepted per class, with floors). Non-trivial = program for which a static error was reported and all effects were verified absent; distinct by error class, placement, evaluation mode and size.",
 		Assumptions: []string{
 			"only the snippets marked pinned (undefined variable, unknown command under the strict pragma, tmp at top level, try with else but no catch, unbalanced brackets/quotes, invalid escape) are required to be rejected; for the other malformed forms the check only demands consistency (if rejected, nothing ran; Check agrees with Eval)",
 			"stderr is only searched for the program's own markers (compile-time deprecation warnings may legitimately be written there)",
@@ -707,7 +788,18 @@ func Spec() *mon.Spec {
 			"class_undefined-variable": 300, "class_unknown-command-disallowed": 150, "class_tmp-at-top-level": 60,
 			"class_try-else-without-catch": 60, "class_parse-unclosed-paren": 60, "class_del-nonlocal": 50,
 			"placed_uncalled-fn": 400, "placed_uncalled-lambda": 400, "placed_if-false-body": 400, "placed_nested-lambda": 400,
-			"placed_capture": 150, "placed_pipeline-stage": 150,
+			"placed_capture": 100, "placed_pipeline-stage": 100,
+			// pragma / name-resolution classes (nsr_ = rejected, nsa_ = accepted by Eval)
+			"ns_programs": 1500, "ns_rejected": 700, "ns_accepted": 700, "ns_with_private_namespace": 400,
+			"check_vs_eval_compared_private_namespace": 900, "checktree_compared": 3000,
+			"nsr_ns-unimported-mod-cmd-strict": 100, "nsr_ns-unimported-mod-cmd-strict-nested": 25, "nsr_ns-unimported-mod-cmd-strict-toplevel": 20,
+			"nsr_ns-unimported-bundled-mod-cmd-strict": 40, "nsr_ns-nonexistent-mod-cmd-strict": 25, "nsr_ns-imported-sibling-scope": 30,
+			"nsr_ns-use-after-reference": 30, "nsr_ns-unimported-mod-var": 45, "nsr_ns-nonexistent-mod-var": 20, "nsr_ns-imported-mod-var-sibling": 30,
+			"nsr_ns-pragma-inherited-by-inner-lambda": 30, "nsr_ns-pragma-toplevel-then-lambda": 25, "nsr_ns-user-fn-deleted-strict": 30,
+			"nsa_ns-imported-mod-cmd-strict": 60, "nsa_ns-imported-enclosing-scope": 20, "nsa_ns-imported-toplevel-used-inside": 15,
+			"nsa_ns-unimported-mod-cmd-lenient": 20, "nsa_ns-nonexistent-mod-cmd-lenient": 20, "nsa_ns-e-qualified-strict": 25, "nsa_ns-E-qualified-var": 25,
+			"nsa_ns-pragma-after-command": 15, "nsa_ns-pragma-in-sibling-lambda": 30, "nsa_ns-pragma-reset-in-inner-lambda": 25,
+			"nsa_ns-shadowed-builtin-strict": 25, "nsa_ns-user-fn-strict": 15, "nsa_ns-imported-bundled-mod": 25,
 		},
 	}
 }
